@@ -489,7 +489,8 @@ class RaggedView2:
 
     def col_slice(self, col_slice):
         if isinstance(col_slice, Number):
-            idx = col_slice
+            # a numpy integer scalar becomes a Python int: np.uint8(1) * (negative column step) would overflow
+            idx = int(col_slice) if isinstance(col_slice, np.integer) else col_slice
             if len(self.lengths) and (idx >= np.min(self.lengths) or idx < -np.min(self.lengths)):
                 raise ValueError(f'Column index {idx} is out of bounds for shape {self}')
             if idx >= 0:
